@@ -45,6 +45,8 @@ pub struct Rich {
     pub pos_plain_empty: usize,
     pub pos_te_empty: usize,
     pub pos_other_pool: usize,
+    pub pos_other_pool_empty: usize,
+    pub pos_other_pool_empty_te: usize,
     pub pos_adaptive: usize,
     pub pos_bundled: usize,
     pub bundle: usize,
@@ -196,6 +198,9 @@ impl Rich {
         let pos_plain_empty = open_liq(&mut w, p0, PosKind::Plain, lo, hi, 0);
         let pos_te_empty = open_liq(&mut w, p0, PosKind::TokenExt, lo, hi, 0);
         let pos_other_pool = open_liq(&mut w, p1, PosKind::Plain, lo, hi, liq);
+        // the same owner's EMPTY positions in the other pool: nothing is withdrawn from them, so a check that lives next to the withdrawal never runs
+        let pos_other_pool_empty = open_liq(&mut w, p1, PosKind::Plain, lo, hi, 0);
+        let pos_other_pool_empty_te = open_liq(&mut w, p1, PosKind::TokenExt, lo, hi, 0);
         let pos_adaptive = open_liq(&mut w, pa, PosKind::Plain, lo, hi, liq);
         // bundles
         let bundle = w.init_bundle(owner).expect("bundle");
@@ -358,6 +363,8 @@ impl Rich {
             pos_plain_empty,
             pos_te_empty,
             pos_other_pool,
+            pos_other_pool_empty,
+            pos_other_pool_empty_te,
             pos_adaptive,
             pos_bundled,
             bundle,
